@@ -67,9 +67,9 @@ func getRecorder(t *testing.T, prop string) *Recorder {
 	return rec
 }
 
-func (r *Recorder) Eval()              { r.mu.Lock(); r.s.Evaluations++; r.mu.Unlock() }
-func (r *Recorder) AddInner(n int)     { r.mu.Lock(); r.s.Inner += n; r.mu.Unlock() }
-func (r *Recorder) Class(c string)     { r.mu.Lock(); r.s.Classes[c]++; r.mu.Unlock() }
+func (r *Recorder) Eval()          { r.mu.Lock(); r.s.Evaluations++; r.mu.Unlock() }
+func (r *Recorder) AddInner(n int) { r.mu.Lock(); r.s.Inner += n; r.mu.Unlock() }
+func (r *Recorder) Class(c string) { r.mu.Lock(); r.s.Classes[c]++; r.mu.Unlock() }
 func (r *Recorder) ClassN(c string, n int) {
 	r.mu.Lock()
 	r.s.Classes[c] += n
@@ -142,11 +142,11 @@ func (r *Recorder) flush(t *testing.T) {
 
 // Replay is what a replay file holds: everything needed to rebuild and re-run one case.
 type Replay struct {
-	Prop     string              `json:"prop"`
-	Message  string              `json:"message"`
-	Variants []*pipeline.Variant `json:"variants"`
+	Prop     string                 `json:"prop"`
+	Message  string                 `json:"message"`
+	Variants []*pipeline.Variant    `json:"variants"`
 	Extra    map[string]interface{} `json:"extra,omitempty"`
-	Inner    json.RawMessage     `json:"inner,omitempty"`
+	Inner    json.RawMessage        `json:"inner,omitempty"`
 }
 
 func replayDir() string {
